@@ -60,11 +60,20 @@ def scratch_dir(name="snap"):
     return d
 
 
-def make_cfg(over=None, validate=True):
+_CFG_MEMO = {}
+
+
+def make_cfg(over=None, validate=True, memo=None):
+    """memo: a hashable key naming a CONCRETE override; the validated result is computed once per process and
+    deep-copied afterwards (validating the same concrete dict on every explored path is pure overhead)."""
+    if memo is not None and validate and memo in _CFG_MEMO:
+        return copy.deepcopy(_CFG_MEMO[memo])
     base = {"t4": {"snapshot_dir": scratch_dir("snaps")}}
     if over:
         deep_update(base, copy.deepcopy(over))
     cfg = validate_config(base) if validate else base
+    if memo is not None and validate:
+        _CFG_MEMO[memo] = copy.deepcopy(cfg)
     return cfg
 
 
